@@ -174,9 +174,7 @@ impl Response {
             if line == "\r\n" {
                 break;
             } else {
-                let line_without_crlf = line
-                    .strip_suffix("\r\n")
-                    .ok_or(ResponseError::Response)?;
+                let line_without_crlf = line.strip_suffix("\r\n").ok_or(ResponseError::Response)?;
                 let line_parts: Vec<&str> = line_without_crlf.splitn(2, ':').collect();
                 safe_assert(line_parts.len() == 2)?;
                 headers.add(HeaderType::from(line_parts[0]), line_parts[1].trim_start());
@@ -190,7 +188,7 @@ impl Response {
         {
             let mut body: Vec<u8> = Vec::new();
 
-            while let Some(chunk) = parse_chunk(&mut reader) {
+            while let Some(chunk) = parse_chunk(&mut reader)? {
                 body.extend(chunk);
             }
 
@@ -207,7 +205,8 @@ impl Response {
             let content_length: usize = content_length
                 .parse()
                 .map_err(|_| ResponseError::Response)?;
-            let content_buf = read_exact_vec(&mut reader, content_length).ok_or(ResponseError::Stream)?;
+            let content_buf =
+                read_exact_vec(&mut reader, content_length).ok_or(ResponseError::Stream)?;
 
             Ok(Self {
                 version,
@@ -258,22 +257,29 @@ impl From<Response> for Vec<u8> {
 }
 
 /// Parses a chunk using the chunked transfer encoding.
-fn parse_chunk<T>(stream: &mut BufReader<T>) -> Option<Vec<u8>>
+fn parse_chunk<T>(stream: &mut BufReader<T>) -> Result<Option<Vec<u8>>, ResponseError>
 where
     T: Read,
 {
     let mut length_line_buf: Vec<u8> = Vec::new();
-    stream.read_until(0xA, &mut length_line_buf).ok()?;
+    stream
+        .read_until(0xA, &mut length_line_buf)
+        .map_err(|_| ResponseError::Stream)?;
+    let length_line = std::str::from_utf8(&length_line_buf).map_err(|_| ResponseError::Response)?;
     let length: usize =
-        usize::from_str_radix(std::str::from_utf8(&length_line_buf).ok()?.trim_end(), 16).ok()?;
+        usize::from_str_radix(length_line.trim_end(), 16).map_err(|_| ResponseError::Response)?;
 
     if length == 0 {
-        stream.read_exact(&mut [0u8, 0]).ok()?;
-        None
+        stream
+            .read_exact(&mut [0u8, 0])
+            .map_err(|_| ResponseError::Stream)?;
+        Ok(None)
     } else {
-        let content_buf = read_exact_vec(stream, length)?;
-        stream.read_exact(&mut [0u8, 0]).ok()?;
-        Some(content_buf)
+        let content_buf = read_exact_vec(stream, length).ok_or(ResponseError::Stream)?;
+        stream
+            .read_exact(&mut [0u8, 0])
+            .map_err(|_| ResponseError::Stream)?;
+        Ok(Some(content_buf))
     }
 }
 
